@@ -65,6 +65,8 @@ theorem stable_pureBuiltin (name : String) (recv : Val) (args : List Val) : Stab
     | exact StableM.unsup hR _
     | exact stable_intBin hR _ _ _
     | exact StableM.bind hR (hR.printLine _) (fun _ => StableM.pure hR _)
+    | exact StableM.bind hR hR.readLine (fun _ => StableM.bind hR (hR.printLine _) (fun _ => StableM.pure hR _))
+    | exact StableM.bind hR hR.readLine (fun _ => StableM.pure hR _)
     | (dsimp only; split <;> exact StableM.pure hR _)
 end
 
@@ -137,6 +139,7 @@ macro_rules
       | (shead_is frameOuter; exact StableM.frameOuter $hR _)
       | (shead_is getIter; exact StableM.getIter $hR _)
       | (shead_is printLine; exact PrimStable.printLine $hR _)
+      | (shead_is readLine; exact PrimStable.readLine $hR)
       | (shead_is newIter; exact PrimStable.newIter $hR _ _ _ _)
       | (shead_is copyIter; exact PrimStable.copyIter $hR _)
       | (shead_is repointIter; exact PrimStable.repointIter $hR _ _)
@@ -308,6 +311,7 @@ theorem st_nextElem : ∀ src, StableM R (nextElem (fuel + 1) src) := by
   intro src
   cases src with
   | elems xs => cases xs <;> (rw [nextElem]; exact StableM.pure hR _)
+  | stdin => rw [nextElem]; stable_tac hR ih
   | iter id =>
     intro s
     rw [nextElem]
